@@ -599,6 +599,19 @@ pub fn c08(args: &Args) -> Report {
         s.user = vec![(Side::S, UserOp::PromptNak, 1)];
         scns.push(s);
     }
+    // several delayed gap checks and the EOF's whole-file check falling due together: the request
+    // queue is then filled from overlapping windows, out of order (two requests per NAK PDU)
+    {
+        let mut s = Scenario::base("c08 seg=24 size=96 nak=imm5 F=3 d");
+        s.seg = 24;
+        s.file_size = Some(96);
+        s.nak_immediate = true;
+        s.nak_delay_s = 5;
+        s.faults = 3;
+        s.k_drop = true;
+        s.max_count = 5;
+        scns.push(s);
+    }
     // a segment size that is not a multiple of the request size: the capacity computation of a
     // NAK PDU (how many requests fit) is exercised with several separate gaps
     for seg in args.tier.pick(vec![20u16], vec![20u16, 28]) {
